@@ -70,7 +70,7 @@ Proof. reflexivity. Qed.
 
 Lemma ends_nl_snoc x c : ends_nl (x ++ [c]) = match c with NL => true | Other _ => false end.
 Proof.
-  unfold ends_nl, str_endswith. rewrite rev_app_distr. simpl. destruct c; reflexivity.
+  unfold ends_nl, str_endswith. rewrite <- !rev_alt, rev_app_distr. simpl. destruct c; reflexivity.
 Qed.
 
 Lemma ends_nl_cons c r : r <> [] -> ends_nl (c :: r) = ends_nl r.
@@ -170,9 +170,12 @@ Lemma assign_key_spec {W} (a : pykey) (cb : pykey -> text -> W -> W) s w :
   (truthy_key a = false /\ assign_key (fun _ => a) cb s w = w) \/
   (a <> None /\ assign_key (fun _ => a) cb s w = cb a s w).
 Proof.
+  (* written so that it also goes through for equivalent forms of the key test
+     (e.g. `is not None`): each case is closed by whichever disjunct computes *)
   unfold assign_key. destruct a as [n|]; simpl.
-  - destruct (Z.eqb_spec n 0); simpl; [left; auto | right; split; [discriminate|auto]].
-  - left; auto.
+  - destruct (Z.eqb_spec n 0) as [->|Hn]; simpl;
+      first [ right; split; [discriminate | reflexivity] | left; split; reflexivity ].
+  - first [ left; split; reflexivity | right; split; [discriminate | reflexivity] ].
 Qed.
 
 Lemma assign_key_traced {W} (a : pykey) (cb : pykey -> text -> W -> W) s w :
